@@ -708,6 +708,120 @@ fn div_loop_estimate(index: usize, num_divisor_words: usize, dividend: U256Muldi
 //@ end
 pub open spec fn d1_2_spec(divisor: U256Muldiv, n: int) -> int { divisor.items[n - 2] as int }
 
+// ------------------------------------------------------------------ Knuth algorithm D, step D4 (multiply and subtract) of div_loop
+/// the number formed by `len` words of x starting at word `start` (that word least significant)
+pub open spec fn wsum(x: U256Muldiv, start: int, len: int) -> int decreases len {
+    if len <= 0 { 0 } else { wsum(x, start, len - 1) + x.items[start + len - 1] as int * qpow((len - 1) as nat) }
+}
+pub proof fn lemma_wsum_same(a: U256Muldiv, b: U256Muldiv, start: int, len: int)
+    requires 0 <= start, start + len <= 4, forall|m: int| start <= m < start + len ==> a.items[m] == b.items[m],
+    ensures wsum(a, start, len) == wsum(b, start, len) decreases len
+{ if len > 0 { lemma_wsum_same(a, b, start, len - 1); } }
+pub proof fn lemma_wsum_bound(a: U256Muldiv, start: int, len: int)
+    requires 0 <= start, 0 <= len, start + len <= 4,
+    ensures 0 <= wsum(a, start, len) < qpow(len as nat) decreases len
+{
+    if len > 0 { lemma_wsum_bound(a, start, len - 1); lemma_qpow_unfold(len as nat); let e = qpow((len - 1) as nat); let w = a.items[start + len - 1] as int;
+        lemma_qpow_pos((len - 1) as nat);
+        assert(w * e <= (Q() - 1) * e) by(nonlinear_arith) requires 0 <= w <= Q() - 1, e >= 1;
+        assert(w * e >= 0) by(nonlinear_arith) requires w >= 0, e >= 1;
+        assert((Q() - 1) * e + e == Q() * e) by(nonlinear_arith); }
+    else { assert(qpow(0) == 1) by(compute); }
+}
+/// the (n+1)-word dividend window at `index`: n words of the dividend and the head word (the carry space when the window reaches past word 3)
+pub open spec fn window(dividend: U256Muldiv, carry: u64, index: int, n: int) -> int { wsum(dividend, index, n) + win_hi(index, n, dividend, carry) * qpow(n as nat) }
+/// one column of multiply-and-subtract in wrapping u128 arithmetic: new word w and borrow-carry k1 with w - k1*B == u - k0 - p
+pub proof fn lemma_mulsub_word(u: u128, k0: u128, p: u128, t: u128, w: u64, k1: u128)
+    requires u < 0x1_0000_0000_0000_0000, k0 < 0x1_0000_0000_0000_0000, p as int + k0 as int <= (Q() - 1) * Q(),
+        t as int == ({ let x = u as int - k0 as int - (p as int % Q()); if x < 0 { x + Q2() } else { x } }),
+        w as int == t as int % Q(),
+        k1 as int == ({ let a = p as int / Q(); let b = (t as int / Q()) % Q(); if a - b < 0 { a - b + Q() } else { a - b } }),
+    ensures w as int - k1 as int * Q() == u as int - k0 as int - p as int, k1 < 0x1_0000_0000_0000_0000,
+{
+    let q = Q(); lemma_q_powers();
+    let plo = p as int % q; let phi = p as int / q;
+    vstd::arithmetic::div_mod::lemma_fundamental_div_mod(p as int, q); vstd::arithmetic::div_mod::lemma_mod_bound(p as int, q);
+    let x = u as int - k0 as int - plo;
+    assert(-2 * q < x < q);
+    if phi >= q - 1 {
+        assert(q * phi >= q * (q - 1)) by(nonlinear_arith) requires phi >= q - 1, q > 0;
+        assert(q * (q - 1) == (q - 1) * q) by(nonlinear_arith);
+        assert(phi == q - 1) by(nonlinear_arith) requires q * phi <= (q - 1) * q, phi >= q - 1, q > 0;
+    }
+    if x >= 0 {
+        vstd::arithmetic::div_mod::lemma_small_mod(x as nat, q as nat); vstd::arithmetic::div_mod::lemma_basic_div(x, q);
+    } else if x >= -q {
+        // t = Q2 + x = (q - 1) * q + (q + x)
+        assert(Q2() + x == q * (q - 1) + (q + x)) by(nonlinear_arith) requires Q2() == q * q;
+        vstd::arithmetic::div_mod::lemma_fundamental_div_mod_converse(Q2() + x, q, q - 1, q + x);
+        vstd::arithmetic::div_mod::lemma_small_mod((q - 1) as nat, q as nat);
+    } else {
+        assert(Q2() + x == q * (q - 2) + (2 * q + x)) by(nonlinear_arith) requires Q2() == q * q;
+        vstd::arithmetic::div_mod::lemma_fundamental_div_mod_converse(Q2() + x, q, q - 2, 2 * q + x);
+        vstd::arithmetic::div_mod::lemma_small_mod((q - 2) as nat, q as nat);
+    }
+}
+/// D4 on the real code: the window becomes (window - qhat * V) modulo B^(n+1); the final borrow k exceeds the old head word exactly when the subtraction went negative
+//@ seg math/u256_math.rs div_loop from=/let mut k = 0;/ to=/if k > d_head \{/ ret=(dividend,k,d_head) var=dividend
+fn div_loop_mulsub(index: usize, num_divisor_words: usize, dividend_in: U256Muldiv, dividend_carry_space: &mut u64, divisor: U256Muldiv, qhat: u128, use_carry: bool) -> (r: (U256Muldiv, u128, u128))
+    requires 2 <= num_divisor_words <= 4, index + num_divisor_words <= 4, use_carry == (index + num_divisor_words == 4), qhat < 0x1_0000_0000_0000_0000,
+    ensures ({
+        let n = num_divisor_words as int; let ix = index as int; let c0 = *old(dividend_carry_space); let c1 = *final(dividend_carry_space);
+        &&& r.2 as int == win_hi(ix, n, dividend_in, c0) && r.1 < 0x1_0000_0000_0000_0000
+        &&& window(r.0, c1, ix, n) == window(dividend_in, c0, ix, n) - qhat as int * wsum(divisor, 0, n) + (if r.1 > r.2 { qpow((n + 1) as nat) } else { 0 })
+        &&& (forall|m: int| 0 <= m < 4 && (m < ix || m > ix + n) ==> r.0.items[m] == dividend_in.items[m])
+        &&& (!use_carry ==> c1 == c0) }),
+//@ rewrite_for
+//@ loop 0
+        invariant i_it <= num_divisor_words, 2 <= num_divisor_words <= 4, index + num_divisor_words <= 4, qhat < 0x1_0000_0000_0000_0000, k < 0x1_0000_0000_0000_0000,
+            wsum(dividend, index as int, i_it as int) - k as int * qpow(i_it as nat) == wsum(dividend_in, index as int, i_it as int) - qhat as int * wsum(divisor, 0, i_it as int),
+            forall|m: int| 0 <= m < 4 && (m < index || m >= index + i_it) ==> dividend.items[m] == dividend_in.items[m],
+        decreases num_divisor_words - i_it,
+//@ inject after /^    let mut t;/
+    proof { assert(qpow(0) == 1) by(compute); assert(0 * 1 == 0 && qhat as int * 0 == 0) by(nonlinear_arith); }
+//@ inject after /let p = qhat \* \(divisor\.get_word_u128\(i\)\);/
+        let ghost d_before = dividend; let ghost k_before = k;
+        proof { let q = Q();
+            assert(qhat as int * divisor.items[i as int] as int <= (q - 1) * (q - 1)) by(nonlinear_arith) requires 0 <= qhat as int <= q - 1, 0 <= divisor.items[i as int] as int <= q - 1;
+            assert((q - 1) * (q - 1) + (q - 1) == (q - 1) * q) by(nonlinear_arith); lemma_q_powers(); }
+//@ inject after /k = \(\(p >> U64_RESOLUTION\) as u64\)\.wrapping_sub\(\(t >> U64_RESOLUTION\) as u64\) as u128;/
+        proof { let q = Q(); let e = qpow(i as nat); let ix = index as int; let ii = i as int;
+            assert(p >> 64 == p / 0x1_0000_0000_0000_0000u128) by(bit_vector);
+            assert(t >> 64 == t / 0x1_0000_0000_0000_0000u128) by(bit_vector);
+            assert(((t >> 64) as u64) as u128 == (t >> 64) % 0x1_0000_0000_0000_0000u128) by(bit_vector);
+            assert(((p >> 64) as u64) as u128 == p >> 64) by(bit_vector) requires p <= 0xFFFF_FFFF_FFFF_FFFE_0000_0000_0000_0001u128;
+            assert((q - 1) * (q - 1) == 0xFFFF_FFFF_FFFF_FFFE_0000_0000_0000_0001int) by(compute);
+            let w = dividend.items[ix + ii]; let u = d_before.items[ix + ii];
+            lemma_mulsub_word(u as u128, k_before, p, t, w, k);
+            // the column, weighted with B^i
+            lemma_wsum_same(dividend, d_before, ix, ii);
+            lemma_qpow_unfold((ii + 1) as nat);
+            assert(d_before.items[ix + ii] == dividend_in.items[ix + ii]);
+            assert(wsum(dividend, ix, ii + 1) == wsum(d_before, ix, ii) + w as int * e);
+            assert(wsum(dividend_in, ix, ii + 1) == wsum(dividend_in, ix, ii) + u as int * e);
+            assert(wsum(divisor, 0, ii + 1) == wsum(divisor, 0, ii) + divisor.items[ii] as int * e);
+            assert(w as int * e - k as int * (q * e) == (u as int - k_before as int - p as int) * e) by(nonlinear_arith) requires w as int - k as int * q == u as int - k_before as int - p as int;
+            assert(qhat as int * (wsum(divisor, 0, ii) + divisor.items[ii] as int * e) == qhat as int * wsum(divisor, 0, ii) + p as int * e) by(nonlinear_arith) requires p as int == qhat as int * divisor.items[ii] as int;
+            assert((u as int - k_before as int - p as int) * e == u as int * e - k_before as int * e - p as int * e) by(nonlinear_arith);
+        }
+//@ inject before /^    let d_head = if use_carry \{/
+    let ghost d_mid = dividend;
+//@ inject before /^    \(dividend,k,d_head\)$/
+    proof { let q = Q(); let n = num_divisor_words as int; let ix = index as int; let e = qpow(n as nat); lemma_q_powers();
+        lemma_qpow_unfold((n + 1) as nat);
+        let x = d_head as int - k as int;
+        assert(-q < x < q);
+        if x >= 0 { vstd::arithmetic::div_mod::lemma_small_mod(x as nat, q as nat); }
+        else { assert(Q2() + x == q * (q - 1) + (q + x)) by(nonlinear_arith) requires Q2() == q * q;
+               vstd::arithmetic::div_mod::lemma_fundamental_div_mod_converse(Q2() + x, q, q - 1, q + x); }
+        let head1 = t as int % q;
+        assert(head1 == (if x >= 0 { x } else { x + q }));
+        lemma_wsum_same(dividend, d_mid, ix, n);
+        assert(win_hi(ix, n, dividend, *dividend_carry_space) == head1);
+        assert(head1 * e == x * e + (if x >= 0 { 0 } else { q * e })) by(nonlinear_arith) requires head1 == (if x >= 0 { x } else { x + q });
+        assert(x * e == d_head as int * e - k as int * e) by(nonlinear_arith) requires x == d_head as int - k as int;
+    }
+//@ end
 /// Knuth 4.3.1: what the D3 postcondition means for the true quotient digit. U is the (n+1)-word window, V the normalised n-word divisor (n >= 2), written with
 /// their two resp. three leading words and a tail below them (m = n - 2 further words): U = (d0 * B + u2) * M + ut, V = (v1 * B + v2) * M + vt, 0 <= ut, vt < M.
 /// If (qhat, rhat) with qhat * v1 + rhat == d0 passes the test then (qhat - 1) * V <= U, i.e. the true digit is at least qhat - 1
